@@ -294,7 +294,53 @@ def run(ctx):
     if now != defaults0:
         ctx.add_failing("class-defaults-changed", "whole run", observed="class-level defaults differ after the histories", expected="unchanged",
                         clause="changing one object never changes the class defaults")
+    containers(ctx, rnd, els)
     ctx.undecided.append("object aliasing between an element and its copies is checked on the implementation only (a pure model cannot alias)")
+
+
+def containers(ctx, rnd, els):
+    """Container elements: the sub-circuits of one instance are its own — changing them (values of nested elements, or the
+    structure of a sub-circuit incl. the empty 'short' one) never shows in another instance, a new instance, a copy or the
+    class defaults."""
+    from copy import copy, deepcopy
+    from pyimpspec import Resistor, Capacitor, parse_cdc
+    from pyimpspec.circuit.base import Container
+    for sym, cls in els.items():
+        if not issubclass(cls, Container):
+            continue
+        fresh = cls().to_string(6)
+        dflt = {k: (None if v is None else v.to_string(6)) for k, v in cls.get_default_subcircuits().items()}
+        makers = [("default constructor", lambda: cls()), ("parse_cdc", lambda: parse_cdc(sym).get_elements()[0]), ("copy", lambda: copy(cls())), ("deepcopy", lambda: deepcopy(cls()))]
+        for how, mk in makers:
+            a, b = mk(), mk()
+            for key in list(a.get_subcircuits()):
+                sa, sb = a.get_subcircuit(key), b.get_subcircuit(key)
+                ctx.count("container:subcircuit")
+                ctx.note_case(("container", sym, how, key))
+                desc = {"class": sym, "made_by": how, "subcircuit": key}
+                if sa is not None and sa is sb:
+                    ctx.add_failing("subcircuit-shared", desc, observed="two instances hold the same sub-circuit object", expected="independent objects", clause="changing one instance never changes another instance or the class defaults")
+                    continue
+                if sa is None:
+                    continue
+                before_b = b.to_string(6)
+                try:
+                    nested = sa.get_elements(recursive=True)
+                    if nested and rnd.random() < 0.5:
+                        e = rnd.choice(nested)
+                        k = rnd.choice(list(e.get_values()))
+                        e.set_values(**{k: e.get_value(k) * 1.5})
+                    else:
+                        sa.append(rnd.choice([Resistor, Capacitor])())
+                except Exception as x:  # noqa
+                    ctx.count("container:change-refused:" + type(x).__name__)
+                    continue
+                now_dflt = {k: (None if v is None else v.to_string(6)) for k, v in cls.get_default_subcircuits().items()}
+                if b.to_string(6) != before_b:
+                    ctx.add_failing("not-independent", desc, observed=b.to_string(3), expected=before_b, clause="changing one instance never changes another instance")
+                if cls().to_string(6) != fresh or now_dflt != dflt:
+                    ctx.add_failing("class-defaults-changed", desc, observed=cls().to_string(3), expected=fresh, clause="changing one instance never changes the class defaults")
+                    return
 
 
 def search(ctx):
